@@ -19,6 +19,12 @@ SAN_FLAGS = ("-fsanitize=address,undefined", "-fno-sanitize-recover=all", "-D_GL
 START = c02.START
 PIECES = ".KQRBNPkqrbnp"
 
+# finding F1 (C17): TextIO::readFEN accepts any number of pieces, MoveList holds 256 moves and MoveList::addMove has
+# no bound: a FEN with more than 256 pseudo-legal moves overflows the list on the stack (263 moves here)
+F1_FEN = "QQQQQQnk/Q4Qpp/Q5QQ/Q6Q/Q6Q/Q6Q/Q6Q/KQQQQQQQ w - - 0 1"
+F1_KEY = "F1-movelist-overflow-fen-with-more-than-256-pseudo-legal-moves"
+MOVELIST_CAPACITY = 256
+
 
 def hx(b):
     if isinstance(b, str):
@@ -580,6 +586,36 @@ def spec_scan(obs, stats, harvest):
     return fails
 
 
+def pseudo_count(ml_exe, fenhex):
+    """number of pseudo-legal moves of a FEN by the FIDE Spec (-1: FEN rejected / not computable)"""
+    try:
+        rc, out, err = sh([ml_exe], input="cnt %s\n" % fenhex, timeout=60)
+        for l in out.split("\n"):
+            if l.startswith("C "):
+                return int(l.split()[1])
+    except Exception:
+        pass
+    return -1
+
+
+def crash_fens(cmd):
+    """FEN strings (hex) a crashing harness / engine command hands to readFEN"""
+    t = cmd.split(" ")
+    if t[0] in ("POS", "STM", "FEN") and len(t) > 1:
+        return [t[1]]
+    out = []
+    if t[0] in ("UCI", "ENGINE"):
+        for h in t[1:]:
+            try:
+                line = unhx(h)
+            except ValueError:
+                continue
+            m = re.match(rb"\s*position\s+fen\s+(.*?)(\s+moves\b.*)?$", line)
+            if m:
+                out.append(hx(b" ".join(m.group(1).split())))
+    return out
+
+
 def locate_crash(cpp_exe, cmds, env=None):
     """the first command of a chunk on which the harness does not exit normally"""
     for c in cmds:
@@ -829,6 +865,31 @@ def run(ctx):
         ctx.violation("PGN game tree does not survive write + parse: " + l.split(" text=")[0],
                       {"failing_input": {"observation": l[:200], "pgn_text": unhx(m.group(1)).decode("latin-1") if m else None, "count": len(tree_fails)}},
                       key="pgn:" + l.split(" text=")[0].replace(" ", ","))
+    # finding F1 is replayed on every run: is it still real?
+    rc_w, out_w, err_w = sh([cpp_exe], input="STM %s %s\n" % (hx(F1_FEN), hx("Qb2")), timeout=120, env=env)
+    rc_e, err_e, _o = engine_session(eng, [b"position fen " + F1_FEN.encode(), b"go depth 2"], timeout=60)
+    ctx.count("f1_witness_pseudo_legal_moves", max(0, pseudo_count(ml_exe, hx(F1_FEN))))
+    if rc_w != 0 or rc_e != 0:
+        ctx.violation("memory error on a FEN with more than %d pseudo-legal moves: readFEN accepts it, MoveGen writes past the MoveList "
+                      "(TextIO::stringToMove harness exit %s, engine `position fen` + `go depth 2` exit %s)" % (MOVELIST_CAPACITY, rc_w, rc_e),
+                      {"failing_input": {"harness_command": "STM %s %s" % (hx(F1_FEN), hx("Qb2")), "fen": F1_FEN, "move_string": "Qb2",
+                                         "harness_exit": rc_w, "engine_script": ["position fen " + F1_FEN, "go depth 2"], "engine_exit": rc_e,
+                                         "stderr": (err_w[-600:] + err_e[-300:])}}, key=F1_KEY)
+    else:
+        ctx.log("F1 witness: no crash (harness %s, engine %s) - the MoveList overflow is not reproduced in this tree" % (rc_w, rc_e))
+        ctx.count("f1_not_reproduced", 1)
+    other_crashes = []
+    for cmd, rc, msg in crashes:
+        cnts = [pseudo_count(ml_exe, f) for f in crash_fens(cmd)]
+        if any(c > MOVELIST_CAPACITY for c in cnts):
+            # the same defect met by a generated input
+            ctx.count("generated_inputs_hitting_F1", 1)
+            ctx.violation("memory error on a FEN with more than %d pseudo-legal moves (%s)" % (MOVELIST_CAPACITY, max(cnts)),
+                          {"failing_input": {"harness_command": cmd[:20000], "decoded": describe_cmd(cmd), "exit_status": rc, "stderr": msg}},
+                          key=F1_KEY)
+        else:
+            other_crashes.append((cmd, rc, msg))
+    crashes = other_crashes
     for cmd, rc, msg in crashes[:3]:
         small = cmd
         ctx.violation("the real code does not survive this input (exit status %s): %s" % (rc, msg.strip()[:300]),
